@@ -420,6 +420,16 @@ def shape_case(col, rng):
                 break
     if col.want_sample('shape'):
         col.sample({'literal': short(lit), 'fill_result': short(want), 'arg_result': short(builder(target, False))}, 'shape')
+    # ONE literal object filled twice under one Fill, at two different targets (behind target-changing steps; once per item)
+    inner_f = {'k': ['inner-kv'], 'n': [{'deep': 2}, 3], 'fn': target['fn'], 'box': None, 'h': 'inner-hv'}
+    outer_f = dict(target, inner=inner_f)
+    if isinstance(lit, (tuple, list, dict)):
+        got4 = call(G, outer_f, Fill({'first': Pipe(T['inner'], lit), 'second': Pipe(T, lit)}))
+        col.count('shape_checks')
+        want4 = {'first': builder(inner_f, True), 'second': builder(outer_f, True)}
+        if not got4.ok or not deep_equal(got4.value, want4):
+            col.violation('C08/fill-shape:same-literal-at-two-targets-under-one-Fill', "Fill({'first': Pipe(T['inner'], lit), 'second': Pipe(T, lit)}) "
+                          'with lit = %s: expected %s, got %r' % (short(lit), short(want4), got4), {'literal': short(lit)})
     # ONE literal object in argument position twice within one call, at two different targets (a later chain step): each
     # use is rebuilt from ITS target
     inner = {'k': ['inner-kv'], 'n': [{'deep': 2}, 3], 'fn': target['fn'], 'box': None, 'h': 'inner-hv'}
@@ -512,10 +522,13 @@ def documented(col, watch):
 
 def run(ctx):
     col, rng = ctx.col, ctx.rng
-    watch = ModeWatch()
-    if not watch.ok:
-        col.fail_inconclusive('sys.monitoring unavailable: the mode interpreters cannot be watched')
-        return
+    try:
+        watch = ModeWatch()
+        why = 'sys.monitoring unavailable'
+    except AttributeError as e:
+        # the five interpreter functions are hooked by name; on a tree where one of them is gone the hook cannot be placed.
+        # The API-level oracles (shape, identity, cycles) below do not need it and still run; the mode part is inconclusive.
+        watch, why = None, 'an interpreter function the monitor hooks is missing: %s' % e
     tracer = EvalTracer()
     tracer.install()
     col.require('probes_observed', 1000)
@@ -524,10 +537,14 @@ def run(ctx):
     col.require('cyclic_checks', 20)
     col.require('calibrations', 200)
     try:
-        if ctx.shard == 0:
-            documented(col, watch)
-        for i in range(ctx.n(3000, 30000)):
-            mode_case(col, rng, watch, tracer)
+        if watch is None or not watch.ok:
+            col.fail_inconclusive('%s: the mode interpreters cannot be watched' % why)
+            watch = None
+        else:
+            if ctx.shard == 0:
+                documented(col, watch)
+            for i in range(ctx.n(3000, 30000)):
+                mode_case(col, rng, watch, tracer)
         tracer.uninstall()
         for i in range(ctx.n(600, 6000)):
             shape_case(col, rng)
@@ -535,4 +552,5 @@ def run(ctx):
             cyclic_case(col, rng)
     finally:
         tracer.uninstall()
-        watch.close()
+        if watch is not None:
+            watch.close()
